@@ -1,43 +1,9 @@
 """Expected normalised sources (docstrings, annotations and logging calls removed, re-printed by ast.unparse) of the
 functions whose control flow Model/RewardGraph.lean, Model/Reward.lean and Model/RewardState.lean transcribe by hand.
-(The reward components' `calculate` methods, `access_from_nested_dict`, `RewardFunction.update` and `update_agents` are NOT here: they are translated statement by statement by reward_calc.py and
+(The reward components' `calculate` methods, `access_from_nested_dict`, `RewardFunction.update`, `update_agents`, `setup_reward_sharing`, `topological_sort` and `graph_has_cycle` are NOT here: they are translated statement by statement by reward_calc.py and
 proved equivalent to their models for all inputs.)"""
 
 SHAPES = {
-    'topological_sort': '''def topological_sort(graph):
-    visited = set()
-    stack = []
-
-    def dfs(node):
-        if node in visited:
-            return
-        visited.add(node)
-        for neighbour in graph.get(node, []):
-            dfs(neighbour)
-        stack.append(node)
-    for node in graph:
-        dfs(node)
-    return stack''',
-    'graph_has_cycle': '''def graph_has_cycle(graph):
-    visited = set()
-    currently_visiting = set()
-
-    def depth_first_search(node):
-        if node in currently_visiting:
-            return True
-        if node in visited:
-            return False
-        visited.add(node)
-        currently_visiting.add(node)
-        for neighbour in graph.get(node, []):
-            if depth_first_search(neighbour):
-                return True
-        currently_visiting.remove(node)
-        return False
-    for node in graph:
-        if depth_first_search(node):
-            return True
-    return False''',
     'rf_init': '''def __init__(self, **kwargs):
     super().__init__(**kwargs)
     for rew_config in self.config.reward_components:
@@ -46,17 +12,6 @@ SHAPES = {
         self.register_component(component=rew_instance, weight=rew_config.weight)''',
     'register_component': '''def register_component(self, component, weight=1.0):
     self.reward_components.append((component, weight))''',
-    'setup_reward_sharing': '''def setup_reward_sharing(self):
-    graph = {}
-    for name, agent in self.agents.items():
-        graph[name] = set()
-        for comp, weight in agent.reward_function.reward_components:
-            if isinstance(comp, SharedReward):
-                graph[name].add(comp.config.agent_name)
-                comp.callback = lambda agent_name: self.agents[agent_name].reward_function.current_reward
-    if graph_has_cycle(graph):
-        raise RuntimeError(('Detected cycle in agent reward sharing. Check the agent reward function ', 'configuration: reward sharing can only go one way.'))
-    self._reward_calculation_order = topological_sort(graph)''',
     'update_reward': '''def update_reward(self, state):
     return self.reward_function.update(state=state, last_action_response=self.history[-1])''',
     'save_reward_to_history': '''def save_reward_to_history(self):
